@@ -41,6 +41,11 @@ def check(ctx: Ctx) -> str:
               f"LoopContext.__call__ must return self._recurse({par}, self._recurse, depth=self.depth) on every path of a recursive loop (found {[(ast.unparse(r.value)[:40], astq.guard_atoms(lcall.nnode, r)) for r in rets]}): a shortcut for an empty / falsy level skips the nested loop, so its `{{% else %}}` branch is not rendered",
               lcall.loc())
     ctx.check("__call__" not in ctx.repo.cls("runtime:AsyncLoopContext").methods, "loop-call:async-inherits", "runtime:AsyncLoopContext", "async loop call", "AsyncLoopContext must inherit __call__ (the recursive render function is awaited by the caller)", lcall.loc())
+    # loop attributes of the async loop context are coroutine properties: whatever syntax reads
+    # them (`loop.length`, `loop['length']`) is awaited in async mode (rule owned by C09)
+    from .c09 import async_awaits_rule
+
+    async_awaits_rule(ctx, "R8")
     return __doc__ or ""
 
 
